@@ -269,7 +269,43 @@ func (r *run) actOpen() {
 
 func (r *run) actKill() {
 	r.acts = append(r.acts, "kill")
+	// callers keep asking for a connection while the connections die: the calls may fail, they must
+	// not panic (the connection list is read without the mutex)
+	stop := make(chan struct{})
+	var wg sync.WaitGroup
+	var mu sync.Mutex
+	panicked := ""
+	for g := 0; g < 4; g++ {
+		wg.Add(1)
+		go func() {
+			defer wg.Done()
+			defer func() {
+				if e := recover(); e != nil {
+					mu.Lock()
+					panicked = firstWords(fmt.Sprint(e))
+					mu.Unlock()
+				}
+			}()
+			for {
+				select {
+				case <-stop:
+					return
+				default:
+				}
+				ctx := async.TimeoutContext(50 * time.Millisecond)
+				r.cl.Conn(ctx)
+				ctx.Free()
+			}
+		}()
+	}
+	time.Sleep(2 * time.Millisecond)
 	r.px.killAll()
+	time.Sleep(30 * time.Millisecond)
+	close(stop)
+	wg.Wait()
+	if panicked != "" {
+		r.violate("conn-call-panicked-while-connections-die-%s", panicked)
+	}
 }
 
 // actDown: the server goes away (all connections die, nothing is served), and comes back.
